@@ -83,6 +83,7 @@ class WildGen:
             serialize_p=0.0,           # probability that a class declares the serialize() / serializable() marker
             ns_namesakes=0.0,          # probability that a namespace takes the name of a namespace with another parent
             typedef_repeats_listed=0.25,   # probability that a typedef's arguments are a combination of the template's lists
+            capture_names=0.0,         # probability that a nested argument of an instantiation value is named like a parameter
             clone_templates=0.0,       # probability that a templated class is followed by a copy under another name
             inst_namesakes=0.0,        # probability that an instantiation list holds two arguments of one simple name
             enum_namesakes=0.0,        # probability that an enum takes the name of an enum of another scope
@@ -189,6 +190,10 @@ class WildGen:
             return S.T(name, ns, tuple(self.plain_type(depth + 1) for _ in range(r.choice([1, 1, 2]))))
         if self.f['numeric_args'] and r.random() < 0.12:
             return S.T(str(r.randint(0, 99)))
+        if depth > 0 and r.random() < self.f['capture_names']:
+            # a concrete type whose own template argument is spelled like a template parameter of some declaration
+            # (substitution must not descend into what it has just put in: capture-free)
+            return S.T(r.choice(PARAM_NAMES))
         if r.random() < 0.35:
             # `unsigned char` is no Typename: the grammar takes it only as a template argument of an argument
             pool = [b for b in CONCRETE_BASIC if (self.f['unsigned_char_in_inst'] and depth > 0) or b != 'unsigned char']
